@@ -748,10 +748,11 @@ func (fx *FnExec) execInstr(st *State, in ssa.Instruction) {
 		// head the counter has not passed the bound (it is 0, or the previous iteration's test let it through and it
 		// was incremented once)
 		if li := fx.loops[in.Block()]; li != nil && in.Op == token.LSS && in.Block() == li.header {
-			if a := countingLoopCell(fx.fn, li); a != nil {
+			if a, from := countingLoopCellFrom(fx.fn, li); a != nil {
 				if ld, ok := in.X.(*ssa.UnOp); ok && ld.X == ssa.Value(a) && fx.loopInvariantBound(li, in.Y) {
 					x, y := fx.val(in.X), fx.val(in.Y)
-					fx.sc.Assume(Implies(st.R, And(App(">=", SBool, x, TZero), Or(App("<=", SBool, x, TZero), App("<=", SBool, x, y)))))
+					c := IntLit(from)
+					fx.sc.Assume(Implies(st.R, And(App(">=", SBool, x, c), Or(App("<=", SBool, x, c), App("<=", SBool, x, y)))))
 				}
 			}
 		}
@@ -1701,6 +1702,9 @@ func (fx *FnExec) loopInvariantBound(li *loopInfo, v ssa.Value) bool {
 func spawnKey(c *ssa.CallCommon) string {
 	if c.IsInvoke() {
 		return ifaceMethodKey(c.Method)
+	}
+	if b, ok := c.Value.(*ssa.Builtin); ok {
+		return "builtin." + b.Name()
 	}
 	if f := c.StaticCallee(); f != nil {
 		return funcKey(f)
